@@ -7,7 +7,10 @@
     down: those loops are structural recursions over [rev ranges] (suffix [_desc]).
     Deviations from the Go text, all validated by the correspondence check:
       - uint64 ECN counters and int64 time arithmetic do not wrap;
-      - [lastAck] keeps only the ranges of the frame (the other fields are never read back);
+      - [lastAck] keeps only the ranges of the frame (the other fields are never read back); the
+        frame GetAckFrame returns IS [lastAck] (same struct), so the packer's [ack.Truncate]
+        shortens [lastAck] too: op [Trunc lvl n] (n = number of ranges Truncate kept, logged from
+        the implementation; the size computation of numEncodableAckRanges is not modelled);
       - a Go panic (nil tracker, index out of range on an ACK without ranges, unknown level) is the
         result [RPanic]; the model state after a panic is the state before the call. *)
 From Coq Require Import List ZArith Bool.
@@ -305,7 +308,8 @@ Inductive op :=
 | GetAck (lvl now : Z) (onlyIfQueued : bool)
 | IsDup (pn lvl : Z)
 | Alarm
-| Peek.
+| Peek
+| Trunc (lvl n : Z).
 
 Inductive res :=
 | ROk | RErrDup | RErr0RTT | RPanic
@@ -375,6 +379,22 @@ Definition h_is_dup (h : handler) (pn lvl : Z) : res :=
   else if (lvl =? rph_Enc0RTT) || (lvl =? rph_Enc1RTT) then RB (is_dup (tHist (aTr (hApp h))) pn)
   else RPanic.
 
+(** [ack.Truncate] applied by the caller to the frame returned last for that space:
+    [f.AckRanges = f.AckRanges[:n]] on the struct that is also the tracker's [lastAck]. *)
+Definition tr_trunc (t : tracker) (n : Z) : tracker :=
+  mkTr (tECT0 t) (tECT1 t) (tECNCE t) (tHist t) (option_map (firstn (Z.to_nat n)) (tLastAck t)) (tHasNewAck t).
+
+Definition h_trunc (h : handler) (lvl n : Z) : handler :=
+  if lvl =? rph_EncInitial then mkH (option_map (fun t => tr_trunc t n) (hInitial h)) (hHandshake h) (hApp h) (hLowest1RTT h)
+  else if lvl =? rph_EncHandshake then mkH (hInitial h) (option_map (fun t => tr_trunc t n) (hHandshake h)) (hApp h) (hLowest1RTT h)
+  else if lvl =? rph_Enc1RTT then
+    let a := hApp h in
+    mkH (hInitial h) (hHandshake h)
+        (mkApp (tr_trunc (aTr a) n) (aLorTime a) (aLargestObserved a) (aIgnoreBelow a) (aMaxAckDelay a)
+               (aAckQueued a) (aCnt a) (aAckAlarm a))
+        (hLowest1RTT h)
+  else h.
+
 Definition step (h : handler) (o : op) : handler * res :=
   match o with
   | Recv pn ecn lvl t ae => h_recv h pn ecn lvl t ae
@@ -384,6 +404,7 @@ Definition step (h : handler) (o : op) : handler * res :=
   | IsDup pn lvl => (h, h_is_dup h pn lvl)
   | Alarm => (h, RZ (aAckAlarm (hApp h)))
   | Peek => (h, RPeek (aAckQueued (hApp h)) (aCnt (hApp h)) (tHasNewAck (aTr (hApp h))) (aLargestObserved (hApp h)))
+  | Trunc lvl n => (h_trunc h lvl n, ROk)
   end.
 
 (** Runs an op list; stops after the first panic (the Go harness ends the case there). *)
